@@ -156,7 +156,7 @@ Mods1(args2, lvl) ==     \* items built from a pair of definitions a, b ; at lev
 MultiRanges(i1, i2) ==
   {Def(<<Rng(t1, 0, i1), Rng(t2, s, i2)>>) : t1 \in {">", ">="}, t2 \in {">", ">="}, s \in Starts}
   \cup {Def(<<Rng(">", s, i2), Rng(">=", 0, i1)>>) : s \in Starts}              \* listed out of order
-  \cup {Def(<<Rng(">=", 1, i1)>>)}                                               \* a single explicit range
+  \cup {Def(<<Rng(">=", 1, i1)>>), Def(<<Rng(">=", 2, i1)>>), Def(<<Rng(">", 2, i1)>>)}   \* a single explicit range (lattice points strictly between 0 and its start)
   \cup {Def(<<Rng(">=", -1, i1)>>), Def(<<Rng(">", -1, i1), Rng(">", 1, i2)>>)}  \* a negative start: r = 0 is an interior point
 
 \* every definition derivable from t by one production
